@@ -1,4 +1,147 @@
+(** C04 property theorems.  Statements only, each closed by a lemma of
+    Proofs.v (or Lib/Utf8.v), the axiom audit, and non-vacuity examples.
+    All theorems quantify over every limits record (any integers, negative =
+    unlimited), every initial name and every finite list of calls. *)
 From Verif Require Import Lib.Base Lib.Utf8 C04.Spec C04.Model C04.Proofs.
-Theorem c04_truncate : forall limit s, truncate limit s = truncate_spec limit s.
-Proof. exact truncate_refines. Qed.
+Open Scope N_scope.
+
+(** Refinement: the ended span read back through its accessors is exactly
+    what the ordered-map / bounded-FIFO specification computes. *)
+Theorem c04_refines_spec : forall lim name0 ops,
+  live (run_model lim name0 ops) = run_spec lim name0 ops.
+Proof. exact live_refines. Qed.
+Print Assumptions c04_refines_spec.
+
+(** What End hands to the exporter is exactly the specification, for all
+    limits (unconditional since fix 543ed08 of F-C04-2 / F-C04-3). *)
+Theorem c04_exported_refines_spec : forall lim name0 ops,
+  snapshot (run_model lim name0 ops) = run_spec lim name0 ops.
+Proof. exact snapshot_refines. Qed.
+Print Assumptions c04_exported_refines_spec.
+
+(** Documentation of the repaired defect: the snapshot as it was before the
+    fix did not report exact drop counts when the event / link limit is 0. *)
+Theorem c04_snapshot_before_fix_refuted :
+  (exists lim name0 ops, x_evdropped (snapshot_before_fix (run_model lim name0 ops)) <> x_evdropped (run_spec lim name0 ops)) /\
+  (exists lim name0 ops, x_lkdropped (snapshot_before_fix (run_model lim name0 ops)) <> x_lkdropped (run_spec lim name0 ops)).
+Proof. exact snapshot_before_fix_refuted. Qed.
+Print Assumptions c04_snapshot_before_fix_refuted.
+
+(** Laws of the specification (hence, by refinement, of the exported span). *)
+
+(** Each key once; a held key carries the (truncated) value supplied last for it. *)
+Theorem c04_attrs_nodup_lastwins : forall lenlim limit offers,
+  NoDup (keys (fst (spec_attrs lenlim limit offers))) /\
+  forall k, In k (keys (fst (spec_attrs lenlim limit offers))) ->
+            lookup k (fst (spec_attrs lenlim limit offers)) = Some (trunc_value lenlim (last_val k offers)).
+Proof.
+  intros. split; [apply spec_attrs_nodup|]. intros k I. rewrite spec_attrs_keys in I. now apply spec_attrs_lastwins.
+Qed.
+Print Assumptions c04_attrs_nodup_lastwins.
+
+(** Never more than the limit; the keys held are the first [limit] distinct
+    valid keys offered, in order of first appearance (all of them when unlimited). *)
+Theorem c04_attr_limit_earliest_kept : forall lenlim limit offers,
+  ((0 <= limit)%Z -> (Z.of_nat (length (fst (spec_attrs lenlim limit offers))) <= limit)%Z) /\
+  keys (fst (spec_attrs lenlim limit offers)) = kept_keys limit offers.
+Proof. intros. split; [apply spec_attrs_len | apply spec_attrs_keys]. Qed.
+Print Assumptions c04_attr_limit_earliest_kept.
+
+(** The whole attribute map and drop counter in closed form; in particular the
+    dropped count is exactly: invalid offers + offers of keys that are not held. *)
+Theorem c04_dropped_exact : forall lenlim limit offers,
+  spec_attrs lenlim limit offers = attrs_closed lenlim limit offers /\
+  snd (spec_attrs lenlim limit offers) = dropped_count limit offers.
+Proof. intros. split; [apply spec_attrs_closed | now rewrite spec_attrs_closed]. Qed.
+Print Assumptions c04_dropped_exact.
+
+(** Every string (and string-slice element) held as a span attribute value has
+    at most [lenlim] characters. *)
+Theorem c04_value_length : forall lenlim limit offers,
+  Forall (fun a => value_within lenlim (snd a)) (fst (spec_attrs lenlim limit offers)).
+Proof. exact spec_attrs_within. Qed.
+Print Assumptions c04_value_length.
+
+(** Events and links: the kept items are a suffix (the most recent ones) of
+    everything offered, the dropped count is the length of the rest, nothing is
+    dropped when unlimited, and with a limit [c >= 0] exactly min(c, offered)
+    are kept; per item the first [limit] attributes are kept and the rest counted. *)
+Theorem c04_events_links_fifo :
+  (forall (A : Type) c (all : list A),
+     exists pre, all = pre ++ fst (bounded c all) /\ length pre = snd (bounded c all) /\
+                 ((c < 0)%Z -> pre = []) /\
+                 ((0 <= c)%Z -> length (fst (bounded c all)) = Nat.min (Z.to_nat c) (length all))) /\
+  (forall limit l,
+     exists rest, l = fst (cap limit l) ++ rest /\ length rest = snd (cap limit l) /\
+                  ((limit < 0)%Z -> rest = []) /\
+                  ((0 <= limit)%Z -> length (fst (cap limit l)) = Nat.min (Z.to_nat limit) (length l))).
+Proof. split; [exact @bounded_law | exact cap_law]. Qed.
+Print Assumptions c04_events_links_fifo.
+
+(** Status: the code is the maximum set (Unset 0 < Error 1 < Ok 2); the
+    description is that of the last SetStatus(Error, _) when the code is Error, else empty. *)
+Theorem c04_status_precedence : forall ops,
+  status_of ops = (max_code (status_calls ops),
+                   if max_code (status_calls ops) =? 1 then last_error_desc (status_calls ops) else []).
+Proof. exact status_closed. Qed.
+Print Assumptions c04_status_precedence.
+
+(** truncate (the Go algorithm) for every byte string and every limit: equals
+    its specification; and for limit >= 0: unchanged when short enough,
+    otherwise exactly the first [limit] valid characters, re-decoding to those
+    characters (none split, no invalid byte left), never more than [limit] characters. *)
+Theorem c04_truncate : forall limit s,
+  truncate limit s = truncate_spec limit s /\
+  ((0 <= limit)%Z ->
+   let out := truncate limit s in
+   (Z.of_nat (length s) <= limit -> out = s)%Z /\
+   (limit < Z.of_nat (length s) ->
+      out = concat (firstn (Z.to_nat limit) (runes s)) /\
+      runes out = firstn (Z.to_nat limit) (runes s))%Z /\
+   Scan s (runes s) /\
+   Forall (fun r => wf_rune r = true) (runes out) /\
+   (rune_count out <= Z.to_nat limit)%nat).
+Proof. intros. split; [apply truncate_refines | apply truncate_characterised]. Qed.
 Print Assumptions c04_truncate.
+
+(** The decoder reading is unique: [runes] is the only scan of a byte string. *)
+Theorem c04_scan_unique : forall s rs, Scan s rs -> rs = runes s.
+Proof. exact scan_unique. Qed.
+Print Assumptions c04_scan_unique.
+
+(** Calls made after End change nothing (state, accessors, export), for all limits. *)
+Theorem c04_after_end_noop : forall lim name0 ops1 ops2,
+  run_model lim name0 (ops1 ++ OEnd :: ops2) = set_ended (run_model lim name0 (before_end ops1)) /\
+  live (run_model lim name0 (ops1 ++ OEnd :: ops2)) = live (run_model lim name0 ops1) /\
+  snapshot (run_model lim name0 (ops1 ++ OEnd :: ops2)) = snapshot (run_model lim name0 ops1).
+Proof. exact after_end_noop. Qed.
+Print Assumptions c04_after_end_noop.
+
+(** Non-vacuity: a program that exercises duplicates across the capacity
+    boundary, an update when full, invalid attributes, truncation, FIFO eviction,
+    status precedence and calls after End. *)
+Definition ex_lim : limits :=
+  {| lim_len := 2; lim_attrs := 2; lim_events := 1; lim_links := 1; lim_evattrs := 1; lim_lkattrs := 0 |}.
+Definition ex_ops : list op :=
+  [OSetAttrs [(str "a", VInt 1); (str "a", VStr (hx "68c3a96c6c6f"))];
+   OSetAttrs [(str "b", VInt 3); (str "c", VInt 4); (str "a", VStr (hx "ff616263")); ([], VInt 0); (str "z", VInvalid)];
+   OSetStatus 1 (str "d1"); OSetStatus 0 (str "x"); OSetStatus 1 (str "d2");
+   OAddEvent (str "e1") 5 [(str "k", VInt 1); (str "k", VInt 2)]; ORecordError (str "T") (str "boom") 6 [];
+   OAddLink 0 false []; OAddLink 1 false [(str "k", VInt 1)]; OAddLink 2 true [];
+   OSetName (str "n2"); OEnd; OSetName (str "late"); OSetAttrs [(str "b", VInt 9)]; OSetStatus 2 []].
+Example ex_run :
+  run_spec ex_lim (str "n") ex_ops =
+  {| x_name := str "n2"; x_status := (1, str "d2");
+     x_attrs := [(str "a", VStr (str "ab")); (str "b", VInt 3)]; x_dropped := 3;
+     x_events := [{| e_name := str "exception"; e_time := 6; e_attrs := [(str "exception.type", VStr (str "T"))]; e_dropped := 1 |}];
+     x_evdropped := 1;
+     x_links := [{| l_ctx := 2; l_ts := true; l_attrs := []; l_dropped := 0 |}]; x_lkdropped := 1 |} /\
+  snapshot (run_model ex_lim (str "n") ex_ops) = run_spec ex_lim (str "n") ex_ops.
+Proof. vm_compute. split; reflexivity. Qed.
+Example ex_limit0 :
+  x_evdropped (snapshot (run_model lim_ev0 (str "s") [OAddEvent (str "e") 1 []; OAddEvent (str "e") 2 []; OEnd])) = 2%nat /\
+  x_lkdropped (snapshot (run_model lim_lk0 (str "s") [OAddLink 1 false []; OEnd])) = 1%nat.
+Proof. vm_compute. split; reflexivity. Qed.
+Example ex_keys : kept_keys 2 (offers_of (before_end ex_ops)) = [str "a"; str "b"] /\
+                  dropped_count 2 (offers_of (before_end ex_ops)) = 3%nat.
+Proof. vm_compute. split; reflexivity. Qed.
